@@ -204,7 +204,7 @@ func (o *vfOutbox) c03Payloads(hidden []string) {
 		for _, obj := range vfObjectsOf(tree) {
 			vfAssert(!vfJSONHasKey(obj, "bto") && !vfJSONHasKey(obj, "bcc"), "hidden-recipients-on-delivered-object")
 		}
-		if e.kind == "tp.BatchDeliver" {
+		if e.kind == "tp.BatchDeliver" && o.err == nil {
 			for _, h := range hidden {
 				vfAssert(vfOr(vfStrIn(vfUFIRI("inboxOf", h), e.ids), vfStrEq(vfUFIRI("inboxOf", h), vfS(w.senderInbox()))), "hidden-recipient-did-not-receive-the-delivery")
 			}
@@ -249,9 +249,8 @@ func vfC05CreateX(bare bool, check int, cross bool) {
 		hidden = append(hidden, oa[3]...)
 	}
 	if check == 3 {
-		if o.err == nil {
-			o.c03Payloads(hidden)
-		}
+		// whatever the request reports: a payload that left the server must be stripped
+		o.c03Payloads(hidden)
 		vfCover("end")
 		return
 	}
@@ -378,9 +377,8 @@ func vfC05Other(typ string, check int) {
 	o.distinctIDs()
 	o.run()
 	if check == 3 {
-		if o.err == nil {
-			o.c03Payloads(hidden)
-		}
+		// whatever the request reports: a payload that left the server must be stripped
+		o.c03Payloads(hidden)
 	} else {
 		o.c05Common()
 	}
